@@ -9,6 +9,8 @@ control changes hands only at yield points the harness places through public API
 A run is a pure function of (queries, connection sharing, schedule).  Oracle: every thread's result
 equals the result of its query executed alone on a fresh connection."""
 import itertools
+import os
+import sys
 import threading
 
 from hypothesis import strategies as st
@@ -121,9 +123,10 @@ class YKey:
 class Sched:
     """Exactly one worker runs at a time; switches happen only at yield points."""
 
-    def __init__(self, n, schedule):
+    def __init__(self, n, schedule, period=1):
         self.n = n
         self.schedule = list(schedule)
+        self.period = max(1, period)
         self.go = [threading.Semaphore(0) for _ in range(n)]
         self.back = threading.Semaphore(0)
         self.done = [False] * n
@@ -162,9 +165,12 @@ class Sched:
             if k < len(self.schedule):
                 pick = runnable[self.schedule[k] % len(runnable)]
             else:
-                # past the end of the schedule the threads alternate at every yield point
-                later = [i for i in runnable if last is not None and i > last]
-                pick = later[0] if later else runnable[0]
+                # past the end of the schedule the threads alternate at every (period-th) yield point
+                if last in runnable and (k - len(self.schedule)) % self.period:
+                    pick = last
+                else:
+                    later = [i for i in runnable if last is not None and i > last]
+                    pick = later[0] if later else runnable[0]
             k += 1
             if last is not None and pick != last and len(runnable) == self.n:
                 self.switches_while_all_running += 1
@@ -234,6 +240,27 @@ def connect(ledger_text):
     return conn
 
 
+_TRACED_DIRS = (os.path.dirname(os.path.abspath(beanquery.__file__)) + os.sep,)
+
+
+def _tracer(frame, event, arg):
+    # every function call inside the beanquery package (generated parser rules and semantic actions, compiler,
+    # evaluation nodes, BQL functions, tables) is a yield point; the TatSu runtime in between is not (100x more calls)
+    if event == 'call' and frame.f_code.co_filename.startswith(_TRACED_DIRS):
+        yield_point()
+    return None
+
+
+def traced(fn):
+    def run():
+        sys.settrace(_tracer)
+        try:
+            return fn()
+        finally:
+            sys.settrace(None)
+    return run
+
+
 _PARSED = {}
 
 
@@ -283,10 +310,10 @@ def prop_schedule(sh, case):
             return lambda: conns[i].execute(text, params).fetchall()
         statement = parsed_for_slot(text, i)
         return lambda: conns[i].execute(statement, params).fetchall()
-    sched = Sched(n, schedule)
+    sched = Sched(n, schedule, case.get('period', 1))
     _CURRENT[0] = sched
     try:
-        out = sched.run([job(i) for i in range(n)])
+        out = sched.run([traced(job(i)) if case.get('trace') else job(i) for i in range(n)])
     finally:
         _CURRENT[0] = None
     for i in range(n):
@@ -302,6 +329,9 @@ def prop_schedule(sh, case):
                           f'schedule {schedule}\n concurrent {got[1]!r}\n serial     {w[2]!r}'))
     nontrivial = sched.switches_while_all_running >= 2
     sh.count(f'sharing:{sharing}')
+    if case.get('trace'):
+        sh.count('trace:cases')
+        sh.count('trace:yield_points', sum(sched.yields))
     sh.count(f'switches:{min(sched.switches_while_all_running, 6)}')
     sh.record(jsonio.case_hash(case), nontrivial, {'queries': [QUERIES[q][0] for q in qs], 'sharing': sharing,
                                                    'schedule': schedule[:30]} if nontrivial else None)
@@ -348,6 +378,27 @@ def prop_exhaustive(sh, case):
     return fails
 
 
+TRACE_PAIRS = [(20, 29), (20, 20), (29, 30), (19, 25), (26, 27), (0, 1), (2, 2), (4, 7), (8, 9), (10, 11), (12, 13), (16, 17), (15, 14),
+               (21, 22), (23, 24), (5, 23), (33, 34), (6, 7), (3, 20), (19, 28)]
+
+
+@st.composite
+def trace_case(draw):
+    """Function-call granularity: every call inside the beanquery package is a yield point (sys.settrace in the workers), so the
+    parser, the compiler and the evaluation of every operand interleave.  The threads run alone for `lead` steps, then
+    alternate every `period` steps."""
+    if draw(st.booleans()):
+        qs = list(draw(st.sampled_from(TRACE_PAIRS)))
+        if draw(st.booleans()):
+            qs.reverse()
+    else:
+        qs = [draw(st.integers(0, len(QUERIES) - 1)) for _ in range(2)]
+    lead = draw(st.lists(st.tuples(st.integers(0, 1), st.sampled_from([1, 2, 3, 5, 8, 13, 40, 150, 600, 2500])), max_size=3))
+    return {'queries': qs, 'sharing': draw(st.sampled_from(['shared', 'shared', 'separate', 'separate-ledgers'])),
+            'schedule': [t for t, k in lead for _ in range(k)], 'period': draw(st.sampled_from([1, 1, 2, 3, 5, 7, 11, 31, 97])),
+            'as_text': draw(st.booleans()), 'trace': True}
+
+
 def prop_module(sh, case):
     sh.record('module', False)
     if beanquery.threadsafety != 2:
@@ -355,7 +406,7 @@ def prop_module(sh, case):
     return []
 
 
-PARTS = {'schedule': prop_schedule, 'exhaustive': prop_exhaustive, 'module': prop_module}
+PARTS = {'schedule': prop_schedule, 'trace': prop_schedule, 'exhaustive': prop_exhaustive, 'module': prop_module}
 
 
 def run(sh):
@@ -368,3 +419,4 @@ def run(sh):
             sh.fail(sig, detail, case, 'exhaustive')
     sh.extra['exhaustive_schedule_prefix_length'] = case['length']
     sh.search('schedule', schedule_case(), prop_schedule, quick=4000, thorough=100000)
+    sh.search('trace', trace_case(), prop_schedule, quick=320, thorough=8000)
